@@ -261,6 +261,7 @@ func (s *Sorter) SortedBlocks(ctx context.Context, removedCols map[int]struct{},
 		blkPK := make([]string, 0, len(pkIndices))
 		rowPK := make([]string, len(pkIndices))
 		prevRowPK := make([]string, len(pkIndices))
+		havePrevRow := false
 		dec := objects.NewStrListDecoder(true)
 		n := len(s.chunks)
 		chunkRows := make([]objects.StrList, n)
@@ -320,7 +321,15 @@ func (s *Sorter) SortedBlocks(ctx context.Context, removedCols map[int]struct{},
 			// removed: pkIndices are positions in the full column list
 			row := dec.Decode(minRow)
 			slice.CopyValuesFromIndices(row, rowPK, pkIndices)
-			pkOK := pkIsDifferent(rowPK, prevRowPK)
+			// the first row has no predecessor to compare with: prevRowPK is
+			// still all empty strings, which is a legal key
+			pkOK := true
+			if havePrevRow {
+				pkOK = pkIsDifferent(rowPK, prevRowPK)
+			} else {
+				copy(prevRowPK, rowPK)
+				havePrevRow = true
+			}
 			minRow = r.RemoveFrom(minRow)
 			if pkOK {
 				m := len(blk)
@@ -412,6 +421,7 @@ func (s *Sorter) SortedRows(ctx context.Context, removedCols map[int]struct{}, e
 		chunkIdx := make([]int, n)
 		pk := make([]string, len(pkIndices))
 		prevPK := make([]string, len(pkIndices))
+		havePrevRow := false
 		for {
 			minInd := 0
 			var minRow []string
@@ -449,7 +459,13 @@ func (s *Sorter) SortedRows(ctx context.Context, removedCols map[int]struct{}, e
 				break
 			}
 			slice.CopyValuesFromIndices(minRow, pk, pkIndices)
-			pkOK := pkIsDifferent(pk, prevPK)
+			pkOK := true
+			if havePrevRow {
+				pkOK = pkIsDifferent(pk, prevPK)
+			} else {
+				copy(prevPK, pk)
+				havePrevRow = true
+			}
 			if pkOK {
 				rows = append(rows, s.removeCols(minRow, removedCols))
 				if s.profiler != nil {
